@@ -101,6 +101,11 @@ func runC20(r *mc.Run) {
 		// header names are returned as the wrapped getter spelled them
 		{"lower-case-names", map[string][]string{"tcb-info-issuer-chain": {"chain"}, "request-id": {"1", "2"}}, []byte("body")},
 		{"two-spellings-of-one-name", map[string][]string{"Request-ID": {"a"}, "Request-Id": {"b"}, "REQUEST-ID": {"c"}}, []byte("body")},
+		// headers that describe the body differently from what the body is: the response is returned as it came
+		{"content-length-larger-than-body", map[string][]string{"Content-Length": {"4096"}, "Content-Type": {"application/json"}}, []byte("short body")},
+		{"content-length-smaller-than-body", map[string][]string{"Content-Length": {"3"}}, []byte("short body")},
+		{"content-length-garbage+nil-body", map[string][]string{"Content-Length": {"-1", "x"}, "Transfer-Encoding": {"chunked"}}, nil},
+		{"retry-after+warning-headers", map[string][]string{"Retry-After": {"120"}, "Warning": {"199 - stale"}, "Content-Encoding": {"gzip"}, "Status": {"503 Service Unavailable"}}, []byte("{}")},
 		{"odd-names+empty-value-lists", map[string][]string{"x-odd_name": {}, "Content-Type": nil, " Leading-Space": {""}}, []byte("body")},
 	}
 	// kinds of failure of the wrapped getter: whatever the error looks like, it is a failed attempt to be retried
